@@ -271,6 +271,49 @@ def run(prog, tier, res):
                     for (tl, hd) in bb_.back_edges():
                         if bk in bb_.natural_loop(tl, hd):
                             loop_hdr = hd
+    # the same with the iterator taken apart by hand: `let mut it = tracks.into_iter(); let Some(first) = it.next() else
+    # {return ..}; let mut clusters = vec![vec![first]]; for track in it {..}` — one `next()` before the loop yields the
+    # seed, the loop consumes the very same iterator
+    seed_next = None
+    if not skip_ok:
+        in_loop = lambda bk_: any(bk_ in bb_.natural_loop(tl, hd) for (tl, hd) in bb_.back_edges())
+        nx = []
+
+        def unref(x):
+            while x[0] in ("ref", "deref"):
+                x = x[1]
+            return x
+
+        def local_iter(x):
+            """the named iterator local a `next` call advances: through refs, into_iter (identity on iterators) and the
+            for-loop's own temporary"""
+            x = unref(x)
+            while True:
+                if x[0] == "call" and short(x[1]) == "IntoIterator::into_iter" and x[2]:
+                    x = unref(x[2][0])
+                    continue
+                if x[0] == "mut":
+                    i2 = unref(x[2])
+                    while i2[0] == "call" and short(i2[1]) == "IntoIterator::into_iter" and i2[2]:
+                        i2 = unref(i2[2][0])
+                    if i2[0] == "mut":
+                        x = i2
+                        continue
+                return x
+        for bk, t in bb_.calls():
+            if short(cname(t)) == "Iterator::next":
+                nx.append((bk, local_iter(ban.terms.operand(t["args"][0])), ban.terms.call_term(t, bk)))
+        inside = [x for x in nx if in_loop(x[0])]
+        outside = [x for x in nx if not in_loop(x[0])]
+        if len(inside) == 1 and len(outside) == 1 and inside[0][1] == outside[0][1] and inside[0][1][0] == "mut":
+            src = unmut(inside[0][1][2])
+            while src[0] == "call" and short(src[1]) == "IntoIterator::into_iter" and src[2]:
+                src = unmut(src[2][0])
+            hd_ = [hd for (tl, hd) in bb_.back_edges() if inside[0][0] in bb_.natural_loop(tl, hd)]
+            if src[0] in ("param", "mut") and src[1] == 1 and hd_ and bb_.dominates(outside[0][0], hd_[0]):
+                skip_ok = True
+                loop_hdr = hd_[0]
+                seed_next = (outside[0][0], ("field", ("downcast", outside[0][2], "Some"), 0))
     if skip_ok:
         res.hit(R5)
     else:
@@ -287,6 +330,12 @@ def run(prog, tier, res):
                 else:
                     seed_ok = False
                     break
+    if seed_next is not None:
+        for bi_, si_, st_ in bb_.stmts():
+            if st_["k"] == "assign" and st_["rv"]["k"] == "aggr" and st_["rv"].get("ak") == "array" and bb_.dominates(bi_, loop_hdr):
+                ops_ = strip(ban.terms.rvalue(st_["rv"]))[2]
+                if len(ops_) == 1 and strip(ops_[0]) == seed_next[1]:
+                    seed_ok = True
     if seed_ok:
         res.hit(R5)
     else:
